@@ -65,11 +65,100 @@ def install(log):
     return OutputManager
 
 
+def object_tables_case(g, idx):
+    """Tables built from a real search object (search switched off) after simulate()/size() with either time-step method and a
+    horizon of one to three years: the loads table must still be the 8760 inputs, and the caller's list must be left alone."""
+    import warnings
+
+    from ghedesigner.enums import FlowConfigType, TimestepType
+    from ghedesigner.output import OutputManager
+    from ghedesigner.search_routines import Bisection1D
+    from ghedesigner.simulation import SimulationParameters
+
+    from vf.gen import ghe as GG
+    from vf.gen import loads as GL
+    from vf.gen import phys as GP
+
+    pipe_kind = ["SINGLEUTUBE", "DOUBLEUTUBEPARALLEL", "COAXIAL", "DOUBLEUTUBESERIES"][idx % 4]
+    ph = GP.draw_phys(g, pipe_kind)
+    nx, ny = [(1, 1), (1, 2), (2, 2), (1, 3), (2, 3)][int(g.integers(0, 5))]
+    b = float(round(g.uniform(4.5, 8.0), 1))
+    coords = GG.grid(nx, ny, b)
+    desc = GL.draw_desc(g)
+    desc["scale"] = 0.02 * nx * ny
+    reference = tuple(GL.make_loads(desc))
+    handed = list(reference)
+    hourly = idx % 2 == 1
+    method = TimestepType.HOURLY if hourly else TimestepType.HYBRID
+    # the hourly method only runs for whole-year horizons (a 13-month hourly simulate() raises IndexError in _simulate_detailed: logged in
+    # notes/findings_log.md as an out-of-scope observation - a crash, not a wrong table)
+    n_months = int(g.choice([12, 24, 24] if hourly else [12, 13, 24, 30, 36, 60]))
+    hmax = float(round(g.uniform(90, 150), 1))
+    pt, fluid, bh, pipe, grout, soil = GP.bhe_objects(ph, hmax)
+    sp = SimulationParameters(1, n_months, 35.0, 5.0, hmax, 40.0)
+    ops = ["simulate"] + (["size"] if g.random() < 0.3 and not hourly else []) + (["simulate"] if g.random() < 0.4 else [])
+    case = {"pipe": pipe_kind, "field": f"{nx}x{ny}", "b": b, "method": method.name, "n_months": n_months, "ops": ops, "loads": desc}
+    out = {}
+    with warnings.catch_warnings():
+        warnings.simplefilter("ignore")
+        search = Bisection1D([coords], [f"{nx}X{ny}"], float(round(g.uniform(0.2, 0.5), 2)), bh, pt, fluid, pipe, grout, soil, sp, handed,
+                             method=method, flow_type=FlowConfigType.BOREHOLE, search=False, field_type="rectangle")
+        for op in ops:
+            try:
+                if op == "simulate":
+                    search.ghe.simulate(method=method)
+                else:
+                    search.ghe.size(method=method)
+            except ValueError:
+                pass
+        om = OutputManager(search, 0.0, "p", "n", "a", "m", load_method=method)
+    rows = om.hourly_loading_data_rows
+    t0 = dt.datetime(2019, 1, 1)
+    if rows[0] != ["Month", "Day", "Hour", "Time (Hours)", "Loading (W) (Extraction)"]:
+        out["loadings_header"] = str(rows[0])
+    if len(rows) - 1 != 8760:
+        out["loadings_row_count"] = f"{len(rows) - 1} rows for 8760 input loads after {ops} with {method.name} over {n_months} months; first surplus row {rows[8761] if len(rows) > 8761 else None}"
+    for h, r in enumerate(rows[1:8761]):
+        d = t0 + dt.timedelta(hours=h)
+        if list(r) != [d.month, d.day, d.hour + 1, h, reference[h]]:
+            out["loadings_row"] = f"row {h}: {r} vs {[d.month, d.day, d.hour + 1, h, reference[h]]}"
+            break
+    # (the reference is an immutable copy: a tool that edits the list it was handed cannot move the expectation; whether it does so
+    # is recorded but not judged - the property speaks about the table)
+    case["handed_list_modified"] = tuple(handed) != reference
+    if [list(map(float, r)) for r in om.borehole_location_data_rows[1:]] != [list(map(float, c)) for c in coords]:
+        out["borefield"] = "bore-field table differs from the simulated field"
+    gt_rows = om.g_function_data_rows
+    xs = [r[0] for r in gt_rows[1:]]
+    if any(b2 <= a2 for a2, b2 in zip(xs, xs[1:])):
+        out["gfunction_time_not_increasing"] = "ln(t/ts) column not strictly increasing"
+    with warnings.catch_warnings():
+        warnings.simplefilter("ignore")
+        gf, gb = search.ghe.grab_g_function(search.ghe.B_spacing / float(search.ghe.bhe.b.H))
+    if len(xs) != len(gf.x) or max(abs(a2 - b2) for a2, b2 in zip(xs, gf.x)) > 0 or max(abs(r[1] - y) for r, y in zip(gt_rows[1:], gf.y)) > 1e-12 \
+            or max(abs(r[2] - y) for r, y in zip(gt_rows[1:], gb.y)) > 1e-12:
+        out["gfunction_rows"] = "table rows differ from the curve of the returned object"
+    return out, case
+
+
 def run_shard(spec):
     if "cfgs" in spec:
         from vf.scenario import run_shard as rs
 
         return rs(spec)
+    if spec.get("part") == "objects":
+        from vf.common import rng
+
+        g = rng(spec["seed"], PROP, spec["shard"])
+        res = {"kind": "objects", "viol": [], "cases": [], "points": 0, "hits": {}}
+        for i in range(spec["n"]):
+            idx = spec["shard"] * spec["n"] + i
+            out, case = object_tables_case(g, idx)
+            res["points"] += 1
+            res["cases"].append([case["pipe"], case["field"], case["method"], case["n_months"], "+".join(case["ops"]), case["loads"]["seed"]])
+            for k, msg in out.items():
+                res["viol"].append({"mechanism": "object-table:" + k, "message": f"{case['field']} {case['pipe']}: {msg}", "case": case})
+        return res
     log = {"time_convert": 0, "hours_to_month": 0, "bad": []}
     OM = install(log)
     res = {"kind": "calendar", "viol": [], "points": 0}
@@ -113,6 +202,8 @@ def check(tier, seed):
     nsh = 15
     span = years * 8760 / nsh
     specs = [{"part": "labels"}] + [{"part": "months", "lo": i * span, "hi": (i + 1) * span, "step": step} for i in range(nsh)]
+    n_obj = {"quick": 2, "thorough": 12}[tier]
+    specs += [{"part": "objects", "seed": seed, "shard": s_, "n": n_obj} for s_ in range(16)]
     cal = run_pool("vf.props.C19", specs, timeout=3600)
     recs, problems = PC.records(tier, seed)
     rep = Report(PROP)
@@ -121,7 +212,9 @@ def check(tier, seed):
         "calendar scopes (exhaustive): ghe_time_convert for all 8760 hours vs datetime; hours_to_month over 30 years at 0.25 h (1.05 M points): "
         "equal to the closed form, strictly increasing, steps <= dt/672, integers at every month end. Tables: every design run of the scenario "
         "pool: Loadings rows = the 8760 inputs in order with calendar labels, BoreFieldData rows = selected coordinates in order, Gfunction rows "
-        "strictly increasing and equal to grab_g_function(B/H) of the returned object. non-trivial = design run whose tables were checked (each "
+        "strictly increasing and equal to grab_g_function(B/H) of the returned object. Object level: real search objects (search off) on 1-6 borehole fields, "
+        "simulate()/size() with the HYBRID or HOURLY method over 12-60 months, then OutputManager: all 8760 Loadings rows exactly, the list handed "
+        "to the tool compared through an immutable copy, bore-field and g-function tables. non-trivial = design run whose tables were checked (each "
         "distinct scenario) plus the two calendar scopes."
     )
     for p in problems:
@@ -132,6 +225,15 @@ def check(tier, seed):
             rep.inconclusive.append("calendar shard failed: " + r["_harness_error"][:300])
             continue
         rep.evaluations += r["points"]
+        if r.get("kind") == "objects":
+            rep.count("object_level_table_cases", r["points"])
+            for c in r["cases"]:
+                rep.nontrivial(["object"] + c)
+                if c[2] == "HOURLY" and c[3] > 12:
+                    rep.count("object_level_hourly_multi_year_cases")
+            for v in r["viol"]:
+                rep.violate(v["mechanism"], v["message"], {"case": v["case"]})
+            continue
         rep.count("calendar_points", r["points"])
         for k, v in r["hits"].items():
             hits[k] += v
@@ -156,6 +258,8 @@ def check(tier, seed):
             rep.violate("table:" + k, f"{PC.method_of(rec)}: {msg}", {"scenario": rec["cfg"]})
         rep.sample(PC.brief(rec), cap=3)
     rep.extra["design_runs_with_tables_checked"] = n_tables
+    if rep.extra.get("object_level_hourly_multi_year_cases", 0) == 0:
+        rep.inconclusive.append("no object-level hourly multi-year table case was run")
     if n_tables == 0:
         rep.inconclusive.append("no design run produced tables")
     rep.assumptions = ["non-leap calendar (2019) as the tool documents"]
